@@ -39,13 +39,9 @@ rm -f $W/$place
 git apply /tmp/seedpatch.$$
 caught=""
 mkdir -p $(dirname $W)/v && cp /verif/known-findings.txt $(dirname $W)/v/
-for prop in C01 C02 C03 C04 C05 C06 C07 C08 C09 C10 C11 C12 C13 C14 C15 C16 C17 C18 C19 C20; do
-  out=$($BIN -property $prop -repo $W -verif $(dirname $W)/v 2>&1)
-  if echo "$out" | grep -q '^VIOLATION'; then
-    keys=$(echo "$out" | grep '^  violated:' | sed 's/^  violated: //' | head -3 | paste -sd';')
-    caught="$caught $prop[$keys]"
-  fi
-done
+res=$($BIN -sweep -repo $W -verif $(dirname $W)/v 2>&1)
+caught=$(echo "$res" | awk '/^  violated:/ { sub(/^  violated: /, ""); if (n < 3) acc = acc (acc == "" ? "" : ";") $0; n++ } /^=== / { if (acc != "") printf " %s[%s]", $2, acc; acc = ""; n = 0 }')
+echo "$res" | grep -q '^=== C20 ' || caught="$caught SWEEP-INCOMPLETE"
 mkdir -p $DST
 cp /tmp/seedpatch.$$ $DST/patch.diff; rm -f /tmp/seedpatch.$$
 cp $SRC/demo_test.go $DST/demo_test.go
